@@ -15,7 +15,8 @@ Besides the sequential reference `cleanSample`, every `g`/`a` sample is also pus
 of `Model/Race.lean` (`workers` threads, rows dealt round-robin, a pseudo-random interleaving of ATOMIC increments)
 and the answer is `schedule-mismatch` if that differs from the reference (a test of `graph_schedule_independent`
 on concrete values); the verbatim index-loop layers of the two kernels (`d1or0`, `fastLCSScore`) are executed
-side by side with the structural layers the model uses (`layer-mismatch` / `panic`). -/
+side by side with the structural layers the model uses (`layer-mismatch` / `panic`); the closed form of the weights
+(`specWeights`, Props/C13W.lean `weights_closed_form_list`) is recomputed next to the loop (`spec-mismatch`). -/
 namespace ObiVerif.Driver.C13
 open ObiVerif.Clean ObiVerif.Driver
 open ObiVerif.Lcs (Seq d1or0 d1F fastLCSScore bandLCS)
@@ -95,7 +96,11 @@ def runSample (cfg : Config) (workers : Nat) (sample : List Node) : Except Strin
     if !poolAgrees realKernels cfg workers sample then .error "schedule-mismatch" else
     match cleanSample realKernels cfg sample with
     | .hang => .error "hang"
-    | .ok outs => .ok outs
+    | .ok outs =>
+      -- the closed form of the weights (`weights_closed_form_list`), recomputed next to the loop
+      let ns := (sortByCount sample).toArray
+      let spec := specWeights (ns.toList.map (·.count)).toArray (edges1 realKernels ns).toArray
+      if spec != outs.map (·.weight) then .error "spec-mismatch" else .ok outs
 
 def plain (s : Seq) : Bool := s.all (fun b => 97 ≤ b ∧ b ≤ 122)
 
